@@ -207,6 +207,7 @@ type nodeRig struct {
 	registered         map[string]bool
 	issued             []uint64
 	inflight           int
+	promptAccept       bool // the responder's Accept is delivered inside SendMessage of the opening request
 	slowClose          int32
 	delayFailingCancel bool
 	mgrOpts            []impl.DataTransferOption // extra manager options (channel monitor configuration)
@@ -317,7 +318,12 @@ func (n *netDouble) SendMessage(ctx context.Context, p peer.ID, m datatransfer.M
 	if r.failRestartSends && spec.IsReq && spec.Type == mtRestart {
 		ok = false
 	}
+	prompt := r.promptAccept && ok && spec.IsReq && spec.Type == mtNew && r.receiver != nil
 	r.mu.Unlock()
+	if prompt {
+		// a very prompt (loop-back) responder: its accepting response is handled before SendMessage returns
+		r.receiver.ReceiveResponse(ctx, p, r.realMsg(respOf(mtNew, spec.Tid, true, false)).(datatransfer.Response))
+	}
 	if !ok && spec.Type == 2 && r.delayFailingCancel { // a failing cancel message (sent asynchronously by CloseDataTransferChannel):
 		// let the failure surface only after the Cancel event has been processed, to make the order deterministic
 		var chid datatransfer.ChannelID
@@ -400,7 +406,15 @@ func (t *trDouble) rec(rc trRec) error {
 }
 func (t *trDouble) OpenChannel(ctx context.Context, dataSender peer.ID, chid datatransfer.ChannelID, root ipld.Link, stor datamodel.Node, channel datatransfer.ChannelState, msg datatransfer.Message) error {
 	s := t.r.specOfMsg(msg)
-	return t.rec(trRec{Kind: "open", To: tokOfPeer(dataSender), K: t.r.chidTokOf(chid), HasState: channel != nil, Msg: &s})
+	err := t.rec(trRec{Kind: "open", To: tokOfPeer(dataSender), K: t.r.chidTokOf(chid), HasState: channel != nil, Msg: &s})
+	t.r.mu.Lock()
+	prompt := t.r.promptAccept && err == nil && s.IsReq && s.Type == mtNew && t.r.handler != nil
+	t.r.mu.Unlock()
+	if prompt {
+		// a very prompt responder: its accepting response comes back (as a graphsync extension) before the open call returns
+		_ = t.r.handler.OnResponseReceived(chid, t.r.realMsg(respOf(mtNew, s.Tid, true, false)).(datatransfer.Response))
+	}
+	return err
 }
 func (t *trDouble) CloseChannel(ctx context.Context, chid datatransfer.ChannelID) error {
 	if atomic.LoadInt32(&t.r.slowClose) == 1 {
@@ -815,7 +829,16 @@ func (r *nodeRig) exec(s nStep, openIndex int) nObs {
 			}
 			var opts []datatransfer.TransferOption
 			if s.Sub != 0 {
-				opts = append(opts, datatransfer.WithSubscriber(r.subCb(s.Sub)))
+				// the per-transfer options are independent of each other and of their order: an (empty) set of
+				// transport options given together with the subscriber does not unset it
+				switch (s.Sub + openIndex) % 3 {
+				case 0:
+					opts = append(opts, datatransfer.WithSubscriber(r.subCb(s.Sub)), datatransfer.WithTransportOptions())
+				case 1:
+					opts = append(opts, datatransfer.WithTransportOptions(), datatransfer.WithSubscriber(r.subCb(s.Sub)))
+				default:
+					opts = append(opts, datatransfer.WithSubscriber(r.subCb(s.Sub)))
+				}
 			}
 			if s.D == 0 {
 				chid, err = r.mgr.OpenPushDataChannel(ctx, peerOf(s.To), v, base, nodeOf(s.Sel), opts...)
